@@ -153,14 +153,25 @@ Proof.
       * dd (n_mul m1 m2). fin.
       * dd (n_div m1 m2). fin.
   - destruct W as [Wa Wb].
-    destruct (qeval n a) as [va|] eqn:Ea; [|bad].
-    destruct (qeval n b) as [vb|] eqn:Eb; [|bad].
-    rewrite (IHa Wa va eq_refl), (IHb Wb vb eq_refl). unfold q_cmp.
-    destruct va as [x|m1 d1], vb as [y|m2 d2]; cbn [is_q negb andb lift_q qdim].
-    + dd (qcmp_num c x y). fin. rewrite veqb_refl. reflexivity.
-    + destruct (veqb (vzero n) d2); [|bad]. cbn [negb]. dd (qcmp_num c x m2). fin.
-    + destruct (veqb d1 (vzero n)); [|bad]. cbn [negb]. dd (qcmp_num c m1 y). fin.
-    + destruct (veqb d1 d2); [|bad]. cbn [negb]. dd (qcmp_num c m1 m2). fin.
+    assert (Sym : forall p q, veqb p q = veqb q p).
+    { induction p as [|x p IHp]; intros [|y q]; cbn; auto. rewrite IHp, Z.eqb_sym. reflexivity. }
+    destruct (swapped c).
+    + destruct (qeval n b) as [vb|] eqn:Eb; [|bad].
+      destruct (qeval n a) as [va|] eqn:Ea; [|bad].
+      rewrite (IHa Wa va eq_refl), (IHb Wb vb eq_refl). unfold q_cmp.
+      destruct va as [x|m1 d1], vb as [y|m2 d2]; cbn [is_q negb andb lift_q qdim].
+      * dd (qcmp_num (flip_cmp c) y x). fin. rewrite veqb_refl. reflexivity.
+      * rewrite (Sym (vzero n) d2). destruct (veqb d2 (vzero n)); [|bad]. cbn [negb]. dd (qcmp_num (flip_cmp c) m2 x). fin.
+      * rewrite (Sym d1 (vzero n)). destruct (veqb (vzero n) d1); [|bad]. cbn [negb]. dd (qcmp_num (flip_cmp c) y m1). fin.
+      * rewrite (Sym d1 d2). destruct (veqb d2 d1); [|bad]. cbn [negb]. dd (qcmp_num (flip_cmp c) m2 m1). fin.
+    + destruct (qeval n a) as [va|] eqn:Ea; [|bad].
+      destruct (qeval n b) as [vb|] eqn:Eb; [|bad].
+      rewrite (IHa Wa va eq_refl), (IHb Wb vb eq_refl). unfold q_cmp.
+      destruct va as [x|m1 d1], vb as [y|m2 d2]; cbn [is_q negb andb lift_q qdim].
+      * dd (qcmp_num c x y). fin. rewrite veqb_refl. reflexivity.
+      * destruct (veqb (vzero n) d2); [|bad]. cbn [negb]. dd (qcmp_num c x m2). fin.
+      * destruct (veqb d1 (vzero n)); [|bad]. cbn [negb]. dd (qcmp_num c m1 y). fin.
+      * destruct (veqb d1 d2); [|bad]. cbn [negb]. dd (qcmp_num c m1 m2). fin.
   - destruct W as [We Ws]. destruct (qeval n e) as [v'|] eqn:E; [|bad].
     rewrite (IH We v' eq_refl). unfold convert_quantity.
     destruct (compose_units n s) as [[[qv m] o]|] eqn:Cu; [|bad].
@@ -374,24 +385,52 @@ Proof.
       * destruct (n_mul m1 m2) as [r|] eqn:Hr; [|bad]. fin. eapply K; eauto.
       * destruct (n_div m1 m2) as [r|] eqn:Hr; [|bad]. fin. eapply K; eauto.
   - destruct R as [Ra Rb].
-    destruct (qeval n a) as [va|] eqn:Ea; [|bad]. destruct (qeval n b) as [vb|] eqn:Eb; [|bad].
-    destruct (IHa Ra va eq_refl) as (x & -> & Gx & Cx & Ex).
-    destruct (IHb Rb vb eq_refl) as (y & -> & Gy & Cy & Ey).
-    assert (K : forall r, qcmp_num c (qmag va) (qmag vb) = Ok r ->
+    assert (Flip : forall p q, swapped c = true -> qcmp_num (flip_cmp c) q p = qcmp_num c p q).
+    { intros p q Sw. destruct c; try discriminate; reflexivity. }
+    assert (K : forall va vb x y r, goodv (qmag va) x -> goodv (qmag vb) y ->
+       qcmp_num c (qmag va) (qmag vb) = Ok r ->
        goodv r (if match c with
                    | QLt => Qltb x y | QLe => Qleb x y | QEq => Qeqb x y
                    | QNe => negb (Qeqb x y) | QGt => Qltb y x | QGe => Qleb y x
                    end then 1 else 0)).
-    { intros r Hr. pose proof (Qcompare_compQ _ _ _ _ Gx Gy) as C1. pose proof (Qcompare_compQ _ _ _ _ Gy Gx) as C2.
+    { intros va vb x y r (Gx & _) (Gy & _) Hr.
+      pose proof (Qcompare_compQ _ _ _ _ Gx Gy) as C1. pose proof (Qcompare_compQ _ _ _ _ Gy Gx) as C2.
       destruct c; cbn [qcmp_num] in Hr; unfold n_lt, n_le, n_eq, n_ne, n_gt, n_ge, Qltb, Qleb, Qeqb in *;
         injection Hr as <-; rewrite ?C1, ?C2;
         match goal with |- goodv (b2n ?b) _ => destruct b end; cbn; repeat split; reflexivity. }
-    unfold q_cmp.
-    destruct va as [x1|m1 d1], vb as [y1|m2 d2]; cbn [is_q negb andb lift_q qmag] in *.
-    + destruct (qcmp_num c x1 y1) as [r|] eqn:Hr; [|bad]. fin. eexists; split; [reflexivity|apply K; reflexivity].
-    + destruct (veqb (vzero n) d2); [|bad]. cbn [negb]. destruct (qcmp_num c x1 m2) as [r|] eqn:Hr; [|bad]. fin. eexists; split; [reflexivity|apply K; reflexivity].
-    + destruct (veqb d1 (vzero n)); [|bad]. cbn [negb]. destruct (qcmp_num c m1 y1) as [r|] eqn:Hr; [|bad]. fin. eexists; split; [reflexivity|apply K; reflexivity].
-    + destruct (veqb d1 d2); [|bad]. cbn [negb]. destruct (qcmp_num c m1 m2) as [r|] eqn:Hr; [|bad]. fin. eexists; split; [reflexivity|apply K; reflexivity].
+    destruct (swapped c) eqn:Sw.
+    + destruct (qeval n b) as [vb|] eqn:Eb; [|bad]. destruct (qeval n a) as [va|] eqn:Ea; [|bad].
+      destruct (IHa Ra va eq_refl) as (x & -> & Ga).
+      destruct (IHb Rb vb eq_refl) as (y & -> & Gb).
+      unfold q_cmp.
+      destruct va as [x1|m1 d1], vb as [y1|m2 d2]; cbn [is_q negb andb lift_q].
+      * rewrite (Flip x1 y1 eq_refl). destruct (qcmp_num c x1 y1) as [r|] eqn:Hr; [|bad]. fin.
+        eexists; split; [reflexivity|]. eapply (K (VN x1) (VN y1)); eauto.
+      * destruct (veqb d2 (vzero n)); [|bad]. cbn [negb]. rewrite (Flip x1 m2 eq_refl).
+        destruct (qcmp_num c x1 m2) as [r|] eqn:Hr; [|bad]. fin.
+        eexists; split; [reflexivity|]. eapply (K (VN x1) (VQ m2 d2)); eauto.
+      * destruct (veqb (vzero n) d1); [|bad]. cbn [negb]. rewrite (Flip m1 y1 eq_refl).
+        destruct (qcmp_num c m1 y1) as [r|] eqn:Hr; [|bad]. fin.
+        eexists; split; [reflexivity|]. eapply (K (VQ m1 d1) (VN y1)); eauto.
+      * destruct (veqb d2 d1); [|bad]. cbn [negb]. rewrite (Flip m1 m2 eq_refl).
+        destruct (qcmp_num c m1 m2) as [r|] eqn:Hr; [|bad]. fin.
+        eexists; split; [reflexivity|]. eapply (K (VQ m1 d1) (VQ m2 d2)); eauto.
+    + destruct (qeval n a) as [va|] eqn:Ea; [|bad]. destruct (qeval n b) as [vb|] eqn:Eb; [|bad].
+      destruct (IHa Ra va eq_refl) as (x & -> & Ga).
+      destruct (IHb Rb vb eq_refl) as (y & -> & Gb).
+      unfold q_cmp.
+      destruct va as [x1|m1 d1], vb as [y1|m2 d2]; cbn [is_q negb andb lift_q].
+      * destruct (qcmp_num c x1 y1) as [r|] eqn:Hr; [|bad]. fin.
+        eexists; split; [reflexivity|]. eapply (K (VN x1) (VN y1)); eauto.
+      * destruct (veqb (vzero n) d2); [|bad]. cbn [negb].
+        destruct (qcmp_num c x1 m2) as [r|] eqn:Hr; [|bad]. fin.
+        eexists; split; [reflexivity|]. eapply (K (VN x1) (VQ m2 d2)); eauto.
+      * destruct (veqb d1 (vzero n)); [|bad]. cbn [negb].
+        destruct (qcmp_num c m1 y1) as [r|] eqn:Hr; [|bad]. fin.
+        eexists; split; [reflexivity|]. eapply (K (VQ m1 d1) (VN y1)); eauto.
+      * destruct (veqb d1 d2); [|bad]. cbn [negb].
+        destruct (qcmp_num c m1 m2) as [r|] eqn:Hr; [|bad]. fin.
+        eexists; split; [reflexivity|]. eapply (K (VQ m1 d1) (VQ m2 d2)); eauto.
   - destruct R as [Re Rs]. destruct (qeval n e) as [v'|] eqn:E; [|bad].
     destruct (IH Re v' eq_refl) as (x & -> & Gx & Cx & Ex).
     unfold convert_quantity.
